@@ -105,6 +105,39 @@ def run_serr(cls: str, o: Opts, data) -> tuple[str, str, bytes | None]:
     return req, f"ok {b.hex()} flow={len(stream.flow)} " + ("end" if err is None else "!" + err_name(err)), b
 
 
+def run_plug(store, o: Opts | None, stream_spec: tuple[str, Opts] | None) -> tuple[str, str, bytes | None]:
+    """The rdflib plugin end to end: store.serialize(format='jelly'[, options=][, stream=]).
+    -> (request line for the model, response line, bytes)."""
+    is_ds = isinstance(store, Dataset)
+    if is_ds:
+        list(store.graphs())  # see observe()
+        gl = [(g.identifier, list(g)) for g in store.graphs()]
+        quads = [(s, p, o_, g.identifier if isinstance(g, Graph) else g) for s, p, o_, g in store.quads()]
+    else:
+        gl = [(store.identifier, list(store))]
+        quads = []
+    gtok = "+".join(rdflib_term_text(gid) + "@" + ("/".join(rdflib_stmt_text(t) for t in ts) or "_") for gid, ts in gl) if gl else "-"
+    qtok = "/".join(rdflib_stmt_text(q) for q in quads) or "_"
+    stok = "-" if stream_spec is None else f"{stream_spec[0]}:{stream_spec[1].token()}"
+    req = f"plug {int(is_ds)} {'-' if o is None else o.token()} {stok} {ns_token(list(store.namespaces()))} {gtok} {qtok}"
+    kw = {}
+    try:
+        if o is not None:
+            kw["options"] = o.real()
+        if stream_spec is not None:
+            kw["stream"] = make_stream(*stream_spec)[0]
+    except Exception as e:  # noqa: BLE001
+        return req, "!" + err_name(e), None
+    out = io.BytesIO()
+    err = None
+    try:
+        store.serialize(destination=out, format="jelly", **kw)
+    except Exception as e:  # noqa: BLE001
+        err = e
+    b = out.getvalue()
+    return req, f"ok {b.hex()} " + ("end" if err is None else "!" + err_name(err)), b
+
+
 def plugin_serialize(store, **kw) -> bytes:
     out = io.BytesIO()
     store.serialize(destination=out, format="jelly", **kw)
